@@ -57,6 +57,14 @@ type Lists struct {
 	Any   []interface{}
 }
 
+// a named map type: written as a typed map 'M' type ...
+type StrMap map[string]string
+type NamedMaps struct {
+	A StrMap
+	B StrMap
+	C map[string]StrMap
+}
+
 // a struct type used only by value (so that []Leaf and []*Inner do not share a wire name)
 type Leaf struct {
 	N int32
@@ -69,13 +77,13 @@ type Collide struct {
 	Vs []Inner
 }
 type Maps struct {
-	SS  map[string]string
-	SI  map[string]int32
-	IS  map[int32]string
-	SL  map[string]int64
-	SP  map[string]*Inner
-	SF  map[string]float64
-	SB  map[string]bool
+	SS map[string]string
+	SI map[string]int32
+	IS map[int32]string
+	SL map[string]int64
+	SP map[string]*Inner
+	SF map[string]float64
+	SB map[string]bool
 }
 type Deep struct {
 	L  *Lists
@@ -170,7 +178,7 @@ var zooTypes = []reflect.Type{
 	reflect.TypeOf(Scalars{}), reflect.TypeOf(Inner{}), reflect.TypeOf(Embedded{}), reflect.TypeOf(Outer{}),
 	reflect.TypeOf(Lists{}), reflect.TypeOf(Maps{}), reflect.TypeOf(Deep{}), reflect.TypeOf(Tree{}),
 	reflect.TypeOf(Named{}), reflect.TypeOf(Holder{}), reflect.TypeOf(Mutual1{}), reflect.TypeOf(Many{}),
-	reflect.TypeOf(Collide{}), reflect.TypeOf(Node{}),
+	reflect.TypeOf(Collide{}), reflect.TypeOf(Node{}), reflect.TypeOf(NamedMaps{}), reflect.TypeOf(StrMap{}),
 	reflect.TypeOf([]int32{}), reflect.TypeOf([]string{}), reflect.TypeOf([]*Inner{}), reflect.TypeOf([]Leaf{}),
 	reflect.TypeOf([]interface{}{}), reflect.TypeOf([]float64{}), reflect.TypeOf([]int64{}), reflect.TypeOf([]time.Time{}),
 	reflect.TypeOf(map[string]string{}), reflect.TypeOf(map[string]int32{}), reflect.TypeOf(map[int32]string{}),
@@ -181,9 +189,10 @@ var timeType = reflect.TypeOf(time.Time{})
 
 // ---- generator
 type gen struct {
-	r      *rng
-	budget int // remaining nodes
-	maxLen int
+	lastInner *Inner
+	r         *rng
+	budget    int // remaining nodes
+	maxLen    int
 }
 
 func (g *gen) scalarInt64() int64 {
@@ -337,8 +346,19 @@ func (g *gen) value(t reflect.Type, depth int) reflect.Value {
 		}
 		v.Set(m)
 	case reflect.Interface:
-		// an element of []interface{}: a scalar, a string, or a pointer to a small struct
-		switch g.r.intn(7) {
+		// an element of []interface{}: a scalar, a string, a pointer to a small struct (possibly one
+		// already used: a back-reference inside an untyped list), or a nested untyped list
+		switch g.r.intn(10) {
+		case 7:
+			if g.lastInner != nil {
+				v.Set(reflect.ValueOf(g.lastInner))
+				return v
+			}
+			v.Set(reflect.ValueOf(int32(7)))
+		case 8:
+			v.Set(reflect.ValueOf([]interface{}{int32(g.r.intn(50)), g.str()}))
+		case 9:
+			v.Set(reflect.ValueOf([]int32{1, 2, int32(g.r.intn(9))}))
 		case 0:
 			// nil
 		case 1:
@@ -352,7 +372,8 @@ func (g *gen) value(t reflect.Type, depth int) reflect.Value {
 		case 5:
 			v.Set(reflect.ValueOf(float64(g.r.intn(1000)) / 4))
 		default:
-			v.Set(reflect.ValueOf(&Inner{int32(g.r.intn(100)), g.str()}))
+			g.lastInner = &Inner{int32(g.r.intn(100)), g.str()}
+			v.Set(reflect.ValueOf(g.lastInner))
 		}
 	}
 	return v
